@@ -239,6 +239,28 @@ def collect(ctx, mode):
             groups.setdefault(gk, []).append(rec)
             recs.append(rec)
 
+    # --- one accessor object, closed in the middle, continued into OTHER shards; and
+    # payloads handed over in a buffer that the caller re-uses -----------------------
+    for cfg in gen_random_cfgs(ctx, ctx.pick(30, 500)):
+        if cfg["pb"] > 8:
+            continue
+        sub, order = subset_and_order(ctx, cfg)
+        salt = ctx.rng.randrange(1 << 30)
+        gk = json.dumps([cfg, sorted(sub), salt, "continued"])
+        shard_of = lambda p: (sd.morton_ref(cfg["grid"], p) >> (cfg["pb"] + cfg["mb"])) & ((1 << cfg["sb"]) - 1)  # noqa: E731
+        shards = sorted({shard_of(p) for p in order})
+        variants = [dict(), dict(reuse_buffer=True)]
+        if len(shards) >= 2:
+            first = set(ctx.rng.sample(shards, ctx.rng.randint(1, len(shards) - 1)))
+            o2 = [p for p in order if shard_of(p) in first] + [p for p in order if shard_of(p) not in first]
+            variants.append(dict(order=o2, close_after=sum(1 for p in order if shard_of(p) in first)))
+        for v in variants:
+            o = v.pop("order", order)
+            rec = sd.run_session(work, cfg, o, strategy=ctx.rng.choice(["in memory", "on disk"]), salt=salt, **v)
+            sd.drop_dir(rec)
+            groups.setdefault(gk, []).append(rec)
+            recs.append(rec)
+
     framing = set()
     for gk, rs in groups.items():
         hashes = sorted({r["hash"] for r in rs})
